@@ -307,6 +307,15 @@ def rule_adapters(facts):
                     end = pat.strip(rng[2][0])
                     if end and end[0] == "call" and len(end) > 3 and end[3] == inner[0].idx:
                         good = True
+            # `buf.split_at(n).0` is `&buf[..n]`
+            for q in flow_sub(t):
+                if q[0] == "field" and q[1] == 0 and isinstance(q[2], tuple) and q[2] and q[2][0] == "call" and str(q[2][1]).endswith("split_at") \
+                        and len(q[2][2]) == 2 and pat.has_arg(q[2][2][0], "buf"):
+                    end = pat.strip(q[2][2][1])
+                    while isinstance(end, tuple) and end and end[0] in ("field", "as", "ok", "okp", "try") and not (end[0] == "call"):
+                        end = end[-1] if end[0] != "field" else end[2]
+                    if isinstance(end, tuple) and end and end[0] == "call" and len(end) > 3 and end[3] == inner[0].idx:
+                        good = True
             if not good:
                 okk = False
                 why = "the digest is not updated with exactly buf[..n] of the inner call's count: %s" % flow.show(t)[:80]
@@ -316,6 +325,12 @@ def rule_adapters(facts):
                 for s_ in blk.stmts:
                     if s_.k == "assign" and s_.place.local == 0 and not s_.place.proj and s_.rv.k == "aggregate" and s_.rv.agg == "adt" and s_.rv.variant == 0:
                         rets.append(pat.strip(tm.of_operand(s_.rv.ops[0])))
+            def core_call(x):
+                # n, Ok(n)'s payload, `n?`: the count the inner call returned
+                while isinstance(x, tuple) and x and x[0] in ("field", "as", "ok", "okp", "try", "cast"):
+                    x = x[2] if x[0] in ("field", "as", "cast") else x[1]
+                return x
+            rets = [core_call(x) for x in rets]
             if okk and not all(x and x[0] == "call" and len(x) > 3 and x[3] == inner[0].idx for x in rets):
                 okk = False
                 why = "the adapter does not return the inner call's count"
